@@ -77,9 +77,14 @@ func runSoak(r *rand.Rand) {
 				hbOpen = -1
 			}
 			tl.add("j" + memberTok(c.member))
+			if c.member == "" && cHeld != "" && !cLeft {
+				feats["dropped-id-without-leave"] = true
+			}
 			if sr.Intn(100) < pErr {
 				code, err := fail(cls())
-				held, cHeld = -1, ""
+				if !lastRB {
+					held = -1 // the client leaves with the id (seen by "leave") and forgets it
+				}
 				return reply{join: kafka.VerifJoinAnswer{ErrorCode: code}, asField: sr.Intn(2) == 0, err: err}
 			}
 			m := held
@@ -95,7 +100,7 @@ func runSoak(r *rand.Rand) {
 			if sr.Intn(100) < pErr {
 				code, err := fail(cls())
 				if !lastRB {
-					held, cHeld = -1, ""
+					held = -1
 				}
 				return reply{code: code, asField: sr.Intn(2) == 0, err: err}
 			}
@@ -105,7 +110,7 @@ func runSoak(r *rand.Rand) {
 			if sr.Intn(100) < pErr/2 {
 				code, err := fail(cls())
 				if !lastRB {
-					held, cHeld = -1, ""
+					held = -1
 				}
 				return reply{code: code, err: err}
 			}
